@@ -34,5 +34,9 @@ def run_case_for(tag, case, reuse=12):
         p = mine[0]
         return dict(res, verdict="violated", what=p["what"], after_fault=p["after_fault"], after_block=p["after_block"], witness={"config_colang": app.co, "config_yaml": app.yaml, "case": sample, "turn": p["t"], "problem": p["what"], "detail": p["detail"], "all_problems": [(q["tag"], q["t"], q["what"]) for q in problems]})
     if not monitor_reached:
+        expected_calls, _ = rc.expected_action_calls(case)
+        if expected_calls == 0 and stats["turns_judged"] > 0:
+            # per-call options switched off every configured rail of this conversation: nothing to observe
+            return dict(res, verdict="inconclusive", reason="expected:no-rail-call-expected")
         return dict(res, verdict="inconclusive", reason="monitor-not-reached")
     return dict(res, verdict="held")
